@@ -326,6 +326,17 @@ func runC12(c *Ctx) {
 			{"MarshalIndentWithOption(UnorderedMap)", func() ([]byte, error) { return json.MarshalIndentWithOption(iv, "", "\t", json.UnorderedMap()) }},
 		}
 		ein := fmt.Sprintf("case %d: %s", k, genTypeString(t))
+		// every size class of result: small ones, and around the sizes at which buffers are pooled or kept
+		sizes := []int{0, 1, 100, 4096, 65530, 65536, 65540, 70000, 300000, 2 << 20}
+		if k < 2*len(sizes) {
+			n := sizes[k%len(sizes)]
+			big := struct {
+				S string
+				N []int
+				M map[string]string
+			}{S: strings.Repeat("s", n), N: make([]int, n/64), M: map[string]string{"k": strings.Repeat("v", n/3)}}
+			iv, ein = big, fmt.Sprintf("case %d: a struct that encodes to about %d bytes", k, 2*n)
+		}
 		for _, e := range encs {
 			b1, err, pan := safeMarshal(e.f)
 			if err != nil || pan != "" {
